@@ -512,7 +512,7 @@ func (w *vfC09World) settled() bool {
 	if w.dialErr {
 		return w.returned
 	}
-	if w.web == nil || !w.returned {
+	if w.web == nil || !w.returned || w.web.parked {
 		return false
 	}
 	if p.closed && w.web.closed {
@@ -554,6 +554,19 @@ func (w *vfC09World) waitSettled(grace, max time.Duration) (unsettled bool) {
 					lastEvents = w.eventCount
 					stableSince = time.Now()
 				} else if time.Since(stableSince) >= 3*time.Millisecond {
+					return false
+				}
+			} else if vfC09ParkFirstTargetWrite && w.dials > 0 && !w.dialErr && w.panicked == "" {
+				// a relayed connection is settled only if no goroutine of it is still on its way to one of the two
+				// connections (e.g. a prefix write handed to a goroutine that has not run yet)
+				root := w.rootGoid
+				w.mu.Unlock()
+				quiet, _ := vfC09OthersQuiet("", root)
+				if !quiet {
+					runtime.Gosched()
+				}
+				w.mu.Lock()
+				if quiet && w.settled() {
 					return false
 				}
 			} else {
